@@ -19,6 +19,7 @@
 (*   acc     the user answered Accept and no Opened/OpenFailure came since  *)
 (*   ownopen the user issued open_substream (handed to the protocol) and no *)
 (*           Opened/OpenFailure came since                                  *)
+(*   aopen   the user issued open_substream since the last Opened           *)
 (*   want    an *obligated* open awaits its answer (see MonOpen)            *)
 (*   conn    "up"/"down": what the environment knows about the connection   *)
 (*   fault   the connection was disturbed since it was last reported up     *)
@@ -26,16 +27,18 @@
 (***************************************************************************)
 EXTENDS Naturals, Sequences, FiniteSets, TLC
 
-PeerInit == [open |-> FALSE, asked |-> FALSE, acc |-> FALSE, ownopen |-> FALSE, want |-> FALSE,
+PeerInit == [open |-> FALSE, asked |-> FALSE, acc |-> FALSE, ownopen |-> FALSE, aopen |-> FALSE, want |-> FALSE,
              conn |-> "down", fault |-> FALSE, mustClose |-> FALSE, nopen |-> 0, nclosed |-> 0]
 
-MonInit(peers, auto) == [ps |-> [p \in peers |-> PeerInit], auto |-> auto, bad |-> "", badp |-> ""]
+MonInit(peers, auto) == [ps |-> [p \in peers |-> PeerInit], auto |-> auto, dead |-> FALSE, bad |-> "", badp |-> ""]
 
 Fail(M, p, why) == IF M.bad = "" THEN [M EXCEPT !.bad = why, !.badp = p] ELSE M
 Set(M, p, f, v) == [M EXCEPT !.ps[p][f] = v]
 
 \* consent to an inbound stream: an explicit Accept, or (auto-accept configured) an own open
-Consent(M, p) == M.ps[p].acc \/ (M.auto /\ M.ps[p].ownopen)
+\* (answers cannot be matched to open commands: a second open may be issued before the failure of the
+\*  first is read, so an open failure does not withdraw this consent; only the next Opened consumes it)
+Consent(M, p) == M.ps[p].acc \/ (M.auto /\ M.ps[p].aopen)
 
 (* ---- commands -------------------------------------------------------- *)
 
@@ -48,7 +51,7 @@ MonOpen(M, p, r) ==
   IF r = "already" THEN (IF s.open THEN M ELSE Fail(M, p, "open refused as already open while no stream is open"))
   ELSE IF s.open THEN Fail(M, p, "open accepted by the handle while a stream is open")
   ELSE LET clean == s.conn = "up" /\ ~s.fault /\ ~s.ownopen /\ ~s.asked /\ ~s.acc IN
-       [M EXCEPT !.ps[p].ownopen = TRUE, !.ps[p].want = s.want \/ clean]
+       [M EXCEPT !.ps[p].ownopen = TRUE, !.ps[p].aopen = TRUE, !.ps[p].want = s.want \/ clean]
 
 \* close_substream(p): r = "sent" | "noop"
 MonClose(M, p, r) == M
@@ -76,11 +79,14 @@ MonSend(M, p, m, r) ==
 
 MonEvent(M, p, k) ==
   LET s == M.ps[p] IN
-  CASE k = "validate" -> [M EXCEPT !.ps[p].asked = TRUE]
+  \* a new validation request supersedes consent given earlier: the handle keeps one answer slot per
+  \* peer, so an Accept logged before this event was pulled belonged to an earlier substream
+  \* (consent through auto-accept is not withdrawn: an open command logged earlier may be handled later)
+  CASE k = "validate" -> [M EXCEPT !.ps[p].asked = TRUE, !.ps[p].acc = FALSE]
     [] k = "opened" ->
          IF s.open THEN Fail(M, p, "stream opened twice without a close in between")
          ELSE IF ~Consent(M, p) THEN Fail([M EXCEPT !.ps[p].open = TRUE], p, "inbound stream opened without the user's acceptance")
-         ELSE [M EXCEPT !.ps[p].open = TRUE, !.ps[p].acc = FALSE, !.ps[p].ownopen = FALSE, !.ps[p].want = FALSE,
+         ELSE [M EXCEPT !.ps[p].open = TRUE, !.ps[p].acc = FALSE, !.ps[p].ownopen = FALSE, !.ps[p].aopen = FALSE, !.ps[p].want = FALSE,
                         !.ps[p].nopen = s.nopen + 1]
     [] k = "closed" ->
          IF ~s.open THEN Fail(M, p, "stream closed while not open")
@@ -108,7 +114,8 @@ MonEnv(M, p, k) ==
     [] k = "stall" -> [M EXCEPT !.ps[p].fault = TRUE, !.ps[p].want = FALSE]
     [] OTHER -> M
 
-MonPanic(M) == Fail(M, "", "panic")
+\* a task of the node panicked: reported once; the protocol instance is gone, nothing more is judged
+MonPanic(M) == IF M.dead THEN M ELSE [Fail(M, "", "panic") EXCEPT !.dead = TRUE]
 
 \* Quiescence: the environment has nothing in flight and every timer of the implementation had
 \* (three times) the time to fire.  stable = FALSE: timing assumptions were not met, nothing is judged.
